@@ -79,4 +79,10 @@ MUTANTS = [
     ("oldstyle-pop-only-success", ["C05"], D, "                    raise\n                finally:\n                    pop_shape_memo()", "                    raise\n                else:\n                    pop_shape_memo()"),
     ("toplevel-persistent-dicts", ["C05"], S, "        single_memo = {}\n        variadic_memo = {}", "        single_memo = get_shape_memo.__dict__.setdefault('s', {})\n        variadic_memo = {}"),
     ("push-shares-arguments", ["C05"], S, "    memos = ({}, {}, {}, arguments.copy())", "    memos = (memo_stack[-1][0] if memo_stack else {}, {}, {}, arguments.copy())"),
+    ("pytree-last-leaf-skipped", ["C08"], P, "            for leaf_index, leaf in enumerate(leaves):", "            for leaf_index, leaf in enumerate(leaves[:-1] if len(leaves) > 2 else leaves):"),
+    ("pytree-none-is-leaf", ["C08"], P, "            leaves, structure = jtu.tree_flatten(obj, is_leaf=is_flatten_leaftype)", "            leaves, structure = jtu.tree_flatten(obj, is_leaf=lambda x: x is None or is_flatten_leaftype(x))"),
+    ("pytree-no-isleaf", ["C08"], P, "            leaves, structure = jtu.tree_flatten(obj, is_leaf=is_flatten_leaftype)", "            leaves, structure = jtu.tree_flatten(obj)"),
+    ("pytree-leaves-isolated", ["C08"], P, "                if not is_check_leaftype(leaf):\n                    return False", "                _bak = get_shape_memo()\n                _bak = tuple(d.copy() for d in _bak)\n                _ok = is_check_leaftype(leaf)\n                set_shape_memo(*_bak)\n                if not _ok:\n                    return False"),
+    # (pytree-flatten-flag-not-set: equivalent within the generated domain -- leaf boundaries never depend on shapes)
+    ("pytree-empty-rejected", ["C08"], P, "        if cls.structure is not None:\n            if cls.structure.isidentifier():", "        if len(leaves) == 0 and obj != ():\n            return False\n        if cls.structure is not None:\n            if cls.structure.isidentifier():"),
 ]
